@@ -56,6 +56,10 @@ MUTANTS = [
  ('cli-stdin-lines-expect', 'cli', 'main.rs', '                stdin()\n                    .lock()\n                    .lines()\n                    .collect::<Result<Vec<String>, Error>>()\n', '                Ok(stdin()\n                    .lock()\n                    .lines()\n                    .map(|line| line.expect("valid UTF-8"))\n                    .collect_vec())\n', 'fail', 'obtain_input_stdin.safety'),
  ('representative-by-hash-order', 'dfa', 'dfa.rs', 'let old_source_state = *equivalence_class.iter().min().unwrap();', 'let old_source_state = *equivalence_class.iter().next().unwrap();', 'fail', 'recreate.representative_independent_of_hash_order'),
  ('benign-representative-is-greatest', 'dfa', 'dfa.rs', 'let old_source_state = *equivalence_class.iter().min().unwrap();', 'let old_source_state = *equivalence_class.iter().max().unwrap();', 'pass', ''),
+ ('indent-decides-on-raw-line', 'indent', 'regexp.rs', 'let plain_line = color_replace_regex.replace_all(line, "");', 'let plain_line = line.to_string();', 'fail', 'indent.'),
+ ('indent-close-by-contains', 'indent', 'regexp.rs', "(plain_line == \"$\" || plain_line.starts_with(')'))", "(plain_line == \"$\" || plain_line.contains(')'))", 'fail', 'indent.close_decided_by_the_line_without_colour'),
+ ('indent-open-ignores-first-line-guard', 'indent', 'regexp.rs', "(i > 0 && plain_line.starts_with('('))", "plain_line.starts_with('(')", 'fail', 'indent.open_decided_by_the_line_without_colour'),
+ ('benign-indent-disjuncts-swapped', 'indent', 'regexp.rs', "(plain_line == \"$\" || plain_line.starts_with(')'))", "(plain_line.starts_with(')') || plain_line == \"$\")", 'pass', ''),
  ('add-new-state-edge-reversed', 'trie', 'dfa.rs', '.add_edge(current_state, next_state, edge_label.clone());', '.add_edge(next_state, current_state, edge_label.clone());', 'fail', 'add_new_state.'),
  ('insert-marks-start', 'trie', 'dfa.rs', 'self.final_state_indices.insert(current_state.index());\n    }', 'self.final_state_indices.insert(self.initial_state.index());\n    }', 'fail', 'insert.'),
  ('pipeline-sort-before-lowercase', 'regexp', 'regexp.rs', '        if config.is_case_insensitive_matching {\n            Self::convert_for_case_insensitive_matching(test_cases);\n        }\n        Self::sort(test_cases);', '        Self::sort(test_cases);\n        if config.is_case_insensitive_matching {\n            Self::convert_for_case_insensitive_matching(test_cases);\n        }', 'fail', 'pipeline.input_prepared'),
